@@ -5545,6 +5545,17 @@ evdns_cache_lookup(struct evdns_base *base,
 	if (cache && want_cname && (!cache->ai || !cache->ai->ai_canonname))
 		cache = NULL;
 	if (cache) {
+		/* An entry whose TTL has run out is as good as gone even if its
+		 * expiry timer has not been serviced yet (a busy or stalled
+		 * loop runs the callbacks that look here before it). */
+		struct timeval expires, now;
+		if (event_pending(&cache->ev_timeout, EV_TIMEOUT, &expires)) {
+			event_base_gettimeofday_cached(base->event_base, &now);
+			if (!evutil_timercmp(&now, &expires, <))
+				cache = NULL;
+		}
+	}
+	if (cache) {
 		struct evutil_addrinfo *e = cache->ai, *prev = NULL;
 		log(EVDNS_LOG_DEBUG, "Found cache for %s", cache->name);
 		for (; e; prev = e, e = e->ai_next) {
